@@ -169,6 +169,43 @@ fn classify_els(els: &[El], o: &mut Outcome) {
     o.label_if(gs::depth(els) >= 3, "depth>=3");
 }
 
+/// the script bytes a case offers to the parser (None for the helper cases)
+pub fn case_bytes(case: &Case) -> Option<Vec<u8>> {
+    Some(match case {
+        Case::Valid { els } => gs::to_bytes(els),
+        Case::Raw { bytes } => bytes.clone(),
+        Case::Mutated { els, muts } => {
+            let mut b = gs::to_bytes(els);
+            apply_mutations(&mut b, muts);
+            b
+        }
+        Case::Trunc { prefix, form, declared, have } => {
+            let mut b = gs::to_bytes(prefix);
+            b.extend(push_header(*form, *declared));
+            b.extend(fill(*have as usize));
+            b
+        }
+        Case::CutLen { prefix, form, nlen } => {
+            let mut b = gs::to_bytes(prefix);
+            b.push(*form);
+            b.extend(fill(*nlen as usize));
+            b
+        }
+        Case::Unterminated { prefix, opens } => {
+            let mut b = gs::to_bytes(prefix);
+            for (code, with_else, body) in opens {
+                b.push(*code);
+                b.extend(gs::to_bytes(body));
+                if *with_else {
+                    b.push(tok::OP_ELSE);
+                }
+            }
+            b
+        }
+        _ => return None,
+    })
+}
+
 impl Property for C02 {
     type Case = Case;
     const ID: &'static str = "C02";
@@ -310,6 +347,23 @@ impl Property for C02 {
                 ].prop_map(|data| Case::Encode { data }),
         ]
         .boxed()
+    }
+
+    fn known(case: &Case, f: &Failure) -> Option<&'static str> {
+        if f.check != "reject_truncated_push" {
+            return None;
+        }
+        let bytes = case_bytes(case)?;
+        let neutral = known_lenient_tail(&bytes)?;
+        // delta attribution: the neutralised script passes every check and is what the library made of the original
+        let mut o = Outcome::new();
+        check_script_bytes(&neutral, false, None, &mut o).ok()?;
+        let lib = Script::from_bytes(&bytes).ok()?;
+        if lib.to_bytes() == neutral {
+            Some("return-data-truncated-push")
+        } else {
+            None
+        }
     }
 
     fn check(case: &Case) -> CheckResult {
